@@ -31,7 +31,7 @@ def heap_key(run, v, res=None):
         collections = st.get("stw_operations", 0)
         if collections * 65536 >= 0.4 * (heap_mb << 20):
             return "swiper:sparse-page-promotion:trap:OOM"
-    if v[0] == "trap:OOM" and run["exe"][1] == "sweep" and run["exe"][0] == "heapgraph":
+    if v[0] == "trap:OOM" and run["exe"][1] == "sweep" and run["exe"][0].split("@")[0] == "heapgraph":
         # non-moving collector: survivors spread by KEEPCHURN, then a request that needs a
         # contiguous block larger than a TLAB (>= 8 KiB)
         a = run["argv"]
@@ -43,7 +43,11 @@ def heap_key(run, v, res=None):
             elif seen_keep and ((op in (mh.OPS["NEW"], mh.OPS["ARR"]) and y >= 1000) or (op == mh.OPS["PAIRS"] and y >= 500) or (op == mh.OPS["CHURN"] and y >= 1000)
                                 or (op == mh.OPS["STR"] and y >= 90)):
                 return "sweep:fragmentation-large-request:trap:OOM"
-    return "%s:%s" % (run["exe"][0], v[0])
+    return "%s:%s" % (run["exe"][0].split("@")[0], v[0])
+
+
+# layout variants of the heapgraph driver available in the current check (0 = the original)
+HG_VARIANTS = [0]
 
 
 def hg_run(seed, prop, i, fault_free, collectors=("zero", "copy", "sweep", "swiper"), codegens=("cannon", "boots"), profile=None, max_ops=200):
@@ -83,9 +87,10 @@ def hg_run(seed, prop, i, fault_free, collectors=("zero", "copy", "sweep", "swip
         # while the concurrent sweeper is still at work (no effect on the expected output)
         script = mh.add_snapshots(script, snap)
         prof = prof + "+snap"
-    return {"index": i, "exe": ["heapgraph", gc, cg, "sim"], "argv": script, "dora_flags": " ".join(flags), "sim": sim,
+    variant = tb.stream(seed, prop, i, "variant").choice(HG_VARIANTS)
+    return {"index": i, "exe": ["heapgraph@%d" % variant if variant else "heapgraph", gc, cg, "sim"], "argv": script, "dora_flags": " ".join(flags), "sim": sim,
             "expect": {"rc": 0, "stdout": out, "stderr_empty": True}, "timeout": 300, "fault_free": fault_free,
-            "tags": {"gc": gc, "codegen": cg, "profile": prof, "workers": workers, "heap_mb": heap if gc != "zero" else 128,
+            "tags": {"gc": gc, "codegen": cg, "profile": prof, "layout_variant": variant, "workers": workers, "heap_mb": heap if gc != "zero" else 128,
                      "tlab": "off" if "--disable-tlab" in flags else "on", "gc_verify": "--gc-verify" in flags, "stress": stress or "none",
                      "policy": sim["policy"].split(":")[0], "fault_free": fault_free}}
 
@@ -445,8 +450,14 @@ def boots_workload_batch(tier, budget_s):
 
 def c03(tier):
     t0 = time.time()
+    # layout variants of the object-graph driver (padding fields: reference fields at other
+    # offsets; extra live reference locals: bigger frames and stack maps)
+    global HG_VARIANTS
+    nvar = 2 if tier == "quick" else 6
+    first = 1 + (seed() * 2) % 12
+    HG_VARIANTS = [0, 0] + [first + k for k in range(nvar)]
     main = run_tier_b_property(
-        "C03", tier, quick_s=75, thorough_s=1200, drivers=["heapgraph", "mtheap", "sync"], collectors=["zero", "copy", "sweep", "swiper"], codegens=["cannon", "boots"],
+        "C03", tier, quick_s=75, thorough_s=1200, drivers=["heapgraph", "mtheap", "sync"] + ["heapgraph@%d" % v for v in HG_VARIANTS if v], collectors=["zero", "copy", "sweep", "swiper"], codegens=["cannon", "boots"],
         make_run=c03_make_run, shrink=_ShrinkByDriver({"heapgraph": hg_shrink, "mtheap": mt_shrink, "sync": sync_shrink}), expect_fn=hg_expect, write=False, key_fn=heap_key,
         level_text="seeded search over generated object-graph scripts x collector x code generator x heap/young size x workers x TLAB x gc-verify x schedule x injected collections/allocation failures; oracle = Python reference model of the script (exact stdout), clean exit, no runtime assertion / gc-verify failure / signal, M-stw monitor inside every collection, M-sweep after every concurrent sweep")
     exit_code, cov, reported = main
